@@ -1803,7 +1803,8 @@ def h_list_clear():
             ('the offset left is 0', z3.BoolVal(True) if first is None else first != 0),
             ('the old offsets (shared with snapshots) are untouched', z3.And(j >= 0, j < n, z3.Select(a1, j) != z3.Select(a0, j))),
             ('the builder no longer appends into the buffer that snapshots share', still_old),
-            ('the content builder is cleared', z3.Not(z3.Or(cleared + [z3.BoolVal(False)])))]
+            ('the content builder is cleared', z3.Not(z3.Or(cleared + [z3.BoolVal(False)]))),
+            ('no list is open after clear (a cleared builder is in its initial state)', m.cell('lb', fo[4]) != 0)]
 
     def replay(model, ent_):
         import subprocess, os
@@ -1815,6 +1816,13 @@ def h_list_clear():
 #include "awkward/Content.h"
 using namespace awkward;
 int main() {
+  {
+    // clear() in the middle of an open list: the list is gone, what follows is appended at the top level
+    ArrayBuilder c(ArrayBuilderOptions(8, 1.5));
+    c.beginlist(); c.integer(2); c.clear(); c.beginlist(); c.integer(5); c.endlist();
+    std::string open_ = c.snapshot().get()->tojson(false, 10);
+    if (open_ != "[[5]]") { printf("beginlist; integer(2); clear(); beginlist; integer(5); endlist gives %s\n", open_.c_str()); return 1; }
+  }
   ArrayBuilder b(ArrayBuilderOptions(8, 1.5));
   b.beginlist(); b.integer(2); b.integer(3); b.endlist(); b.beginlist(); b.endlist();
   ContentPtr snap = b.snapshot();
